@@ -121,6 +121,7 @@ func verifDaemon()                           {}
 func verifSymbolic() bool                    { return false }
 func verifAdvance(d int64)                   {}
 func verifHoldTimers(hold bool)              {}
+func verifSimultaneousTimers(on bool)        {}
 func verifNow() int64                        { return 0 }
 func verifAtQuiescence(f func())             {}
 func verifBlockedThreads() int               { return 0 }
